@@ -246,6 +246,40 @@ Definition shrake_rupley (fixed : bool) (sched : schedule) (c : call) : result :
                                 fixed (c_frames c) sched)
        end.
 
+(* ---------------------------------------------------------------- the same function in two stages
+   (used by the correspondence to evaluate the expensive, mode-independent part once per system;
+   MD.Sasa.Proofs.shrake_rupley_two_stage shows it is the same function) *)
+Inductive pre := PErr (r : result) | PBufs (bufs : list (list Z)).
+
+Definition set_mode (md : mode) (c : call) : call :=
+  {| c_K := c_K c; c_M := c_M c; c_tiny2 := c_tiny2 c; c_pts := c_pts c; c_tbl := c_tbl c; c_change := c_change c;
+     c_probe := c_probe c; c_elems := c_elems c; c_resid := c_resid c; c_nres := c_nres c; c_mode := md;
+     c_sel := c_sel c; c_frames := c_frames c |}.
+
+(* stage 1: everything that does not depend on the mode - guards, radii, and each frame's buffer from zeros *)
+Definition shrake_rupley_pre (c : call) : pre :=
+  let n := length (c_elems c) in
+  if match c_sel c with Some idx => negb (forallb (fun i => Nat.ltb i n) idx) | None => false end then PErr ErrIndex
+  else match radii_of (c_tbl c) (c_change c) (c_probe c) (c_elems c) with
+       | None => PErr ErrKey
+       | Some radii =>
+           let mask := mask_of n (c_sel c) in
+           if existsb (fun fr => frame_clash (c_tiny2 c) (combine fr radii) mask) (c_frames c) then PErr Exit1
+           else PBufs (map (fun fr => asa_frame (c_K c) (c_M c) (c_pts c) (combine fr radii) mask (zeros (length radii)))
+                           (c_frames c))
+       end.
+
+(* stage 2: the mode - contiguity check, mapping, -1 overlay, accumulation into groups *)
+Definition shrake_rupley_post (c : call) (p : pre) : result :=
+  let n := length (c_elems c) in
+  let mapping := mapping_of (c_mode c) n (c_resid c) in
+  let ng := match c_mode c with AtomMode => n | ResidueMode => c_nres c end in
+  if match c_mode c with AtomMode => false | ResidueMode => negb (contiguous mapping) end then ErrValue
+  else match p with
+       | PErr e => e
+       | PBufs bufs => Ok (map (fun b => Some (accumulate mapping b (init_row ng mapping (c_sel c)))) bufs)
+       end.
+
 (* ---------------------------------------------------------------- comparison used by the correspondence
    The implementation's float32 areas are turned, by the harness, into an integer interval [lo, hi] in the
    unit K*U^2 (K = 1) per frame and output column, or None where the implementation returned exactly -1. *)
